@@ -50,3 +50,10 @@ package basicauth
 //@   loop 3 invariant exists(j, 0, #i2 - 1, M(#i1 - 1, j)) ==> NE(#i1 - 1)
 //@   loop 3 invariant protected == (exists(i, 0, #i1 - 1, prot(i)) || exists(j, 0, #i2 - 1, M(#i1 - 1, j)))
 //@   loop 3 invariant isAuthenticated == (exists(i, 0, #i1 - 1, prot(i) && okCred(i)) || (exists(j, 0, #i2 - 1, M(#i1 - 1, j)) && okCred(#i1 - 1)))
+
+//@ unit setup_sweep props=C11 files=setup.go nilchecks=on nonnil_params=on dispenser_variants=on filter=`.`
+//@ // Safety sweep of this directive's setup code: index, slice, division, nil-map store, nil dereference, explicit panic,
+//@ // and termination of the loops driven by the token cursor. No functional contract; callees in the dispenser through their contracts.
+//@ use casketfile/contracts_verif.go:dispenser_api
+//@ use @verif/specs/stdlib.spec:stdlib
+//@ use @verif/specs/stdlib.spec:casket_api
